@@ -52,6 +52,12 @@ if rc != 0:
     print(json.dumps(res, indent=1)); sys.exit(1)
 sh("git apply %s" % patch, "/repo")
 res["checks"] = {}
+# evidence files must describe runs on the unchanged tree: keep them aside while the patch is applied
+saved = {}
+for p in props:
+    ef = "/verif/evidence/%s.json" % p
+    if os.path.exists(ef):
+        saved[ef] = open(ef, "rb").read()
 try:
     for p in props:
         t0 = time.time()
@@ -61,6 +67,8 @@ try:
         res["checks"][p] = {"rc": rc, "violation_lines": viol[:4], "log": summ, "wall_s": round(time.time() - t0)}
 finally:
     sh("git checkout -- .", "/repo")
+    for ef, data in saved.items():
+        open(ef, "wb").write(data)
 rc, out = sh("git status --porcelain --untracked-files=no", "/repo")
 res["repo_clean_after"] = out.strip() == ""
 # keep the change under /verif/seeded/<prop>-<n>/ once everything about it is confirmed
